@@ -184,6 +184,13 @@ class Executor:
             return SV(ty, NULL)
         if ty is BOOL and sv.t is NONE:
             return SV(BOOL, z3.BoolVal(False))   # a parameter declared BOOL stands for the truthiness of the argument
+        if isinstance(ty, TSent) and sv.t is INT:
+            lit = z3.simplify(sv.z)
+            if z3.is_int_value(lit) and lit.as_long() == ty.sentinel:
+                return SV(ty, ty.dt.none)
+            raise Unbound('integer other than the sentinel %d used as %s' % (ty.sentinel, ty))
+        if isinstance(ty, TSent) and isinstance(sv.t, TSent) and sv.t.name == ty.name:
+            return sv
         if isinstance(ty, TOpt):
             if sv.t is NONE:
                 return SV(ty, ty.dt.none)
@@ -598,6 +605,24 @@ class Executor:
             return TYPE_IS(a.z, strlit(b.t.pyname))
         if isinstance(b.t, TDynType) and isinstance(a.t, TType):
             return TYPE_IS(b.z, strlit(a.t.pyname))
+        if isinstance(a.t, TSent) and b.t is INT:
+            # `dims == -1`: the sentinel is the only integer such a value can be
+            lit = z3.simplify(b.z)
+            if z3.is_int_value(lit) and lit.as_long() == a.t.sentinel:
+                return a.t.dt.is_none(a.z)
+            return z3.And(a.t.dt.is_none(a.z), b.z == a.t.sentinel)
+        if isinstance(b.t, TSent) and a.t is INT:
+            return self.equal(b, a, identity)
+        if isinstance(a.t, TOpt) and isinstance(b.t, TOpt) and a.t.name == b.t.name and not identity:
+            inner = self.equal(SV(a.t.t, a.t.dt.v(a.z)), SV(b.t.t, b.t.dt.v(b.z)), False)
+            return z3.Or(z3.And(a.t.dt.is_none(a.z), b.t.dt.is_none(b.z)),
+                         z3.And(z3.Not(a.t.dt.is_none(a.z)), z3.Not(b.t.dt.is_none(b.z)), inner))
+        if isinstance(a.t, TList) and a.t == b.t and not identity and a.t.elem in (INT, REAL, BOOL, STR):
+            # value equality of lists of primitives: same length, same entries
+            from .formula import FA
+            la, lb = l_len(a.t, a.z), l_len(b.t, b.z)
+            aa, ab = l_at(a.t, a.z), l_at(b.t, b.z)
+            return z3.And(la == lb, FA('idx', lambda i: z3.Implies(z3.And(0 <= i, i < la), z3.Select(aa, i) == z3.Select(ab, i))))
         if isinstance(a.t, TOpt) and not isinstance(b.t, TOpt):
             bb = self.coerce(b, a.t.t)
             return z3.And(z3.Not(a.t.dt.is_none(a.z)), a.t.dt.v(a.z) == bb.z)
